@@ -68,14 +68,18 @@ CHECKS = {
  'C06': dict(engine='B', technique='symbolic execution (z3, IEEE-UF sign and monotonicity axioms) of the real hydrogen-only closed form',
    text='Partial: the H-only neutral fraction is in [1e-14,1] for all positive inputs and exactly 1 without radiation or gas; weakly decreasing in the radiation field in the large-flux branch. The coupled H/He iteration, metal stages and the thermal balance are NOT decided (iterative numerics over exp/pow; convergence statements).',
    note='Only the closed form of IonizationStateCalculator::compute_ionization_state_hydrogen; everything else of C06 is outside.', ref='DESIGN.md section 5 C06'),
+
+ 'C01': dict(engine='A', technique='bounded model checking (cbmc/SAT) of the real MemorySpace::add_photons / free_buffer and DistributedPhotonSource::get_photon_batch from arbitrary valid states',
+   text='Partial: per-task accounting lemmas that the conservation invariant requested = done + packets in live buffers rests on: buffer overflow copy loses/duplicates no packet and uses an empty inherited buffer, releasing resets first, batches are min(max, remaining) and sum to the total by induction. The cross-thread termination protocol as a whole is NOT decided.',
+   note='Buffer size 3 (quick) / 6 (thorough) through the guarded hook CMACIONIZE_VERIF_PHOTONBUFFER_SIZE; traversal/re-emission/premature-launch task bodies (H2,H3,H5) not built; composition with the C08 primitives is a paper argument.', ref='DESIGN.md section 5 C01 / 8.2'),
 }
 NA = {
 }
 PENDING = 'check not built yet in this round (planned, see DESIGN.md section 5)'
 ALL = ['C%02d' % i for i in range(1, 21)]
 m = {'version': 1, 'setup_cmd': 'python3 -c "import sys; sys.exit(0)"',
-     'hooks': {'guard': 'CMACIONIZE_VERIF', 'enable': 'harness TUs are compiled with -DCMACIONIZE_VERIF by lib/vlib.py (clang++-14 -> LLVM IR); the repository build itself is not rebuilt with the guard',
-               'baseline_off_cmd': 'cmake --build /repo/_build -j16 -- -k 0 >/dev/null 2>&1; ctest --test-dir /repo/_build -j8 --timeout 900', 'source_commits': [], 'add_only': True},
+     'hooks': {'guard': 'CMACIONIZE_VERIF', 'enable': 'harness TUs are compiled with -DCMACIONIZE_VERIF (and, for C01, -DCMACIONIZE_VERIF_PHOTONBUFFER_SIZE=3u/6u) by lib/vlib.py (clang++-14 -> LLVM IR); the repository build itself is not rebuilt with the guard',
+               'baseline_off_cmd': 'cmake --build /repo/_build -j16 -- -k 0 >/dev/null 2>&1; ctest --test-dir /repo/_build -j8 --timeout 900', 'source_commits': ['04d4ccf verification hook: PHOTONBUFFER_SIZE can be overridden under CMACIONIZE_VERIF (src/PhotonBuffer.hpp)'], 'add_only': True},
      'engines': [{'name': 'A', 'path': 'lib/irc.py', 'serves_properties': sorted(k for k, v in CHECKS.items() if 'A' in v['engine']), 'kind_free_text': A},
                  {'name': 'B', 'path': 'lib/irz.py', 'serves_properties': sorted(k for k, v in CHECKS.items() if 'B' in v['engine']), 'kind_free_text': B}],
      'checks': [], 'not_applicable': [], 'notes': 'Every check regenerates its encoding from /repo/src on each run (clang -> IR -> C/z3). Exit 2 + BROKEN-CHECK means the machinery itself failed (timeout, unwinding bound, translation-validation mismatch); it is never reported as success.'}
